@@ -20,9 +20,10 @@ AcceptReset == CfgOK(Ev.cfg) /\ Ev.r.k = "unit"
 Step == CASE Ev.ev = "next" -> LET r == ANext(a, cap, SL) IN [ret |-> [k |-> "val", v |-> r.frame], a |-> r.a]
           [] Ev.ev = "next_frames" -> LET r == ANextFrames(a, Ev.a.k, cap, SL) IN [ret |-> [k |-> "items", v |-> r.items], a |-> r.a]
           [] Ev.ev = "is_exhausted" -> [ret |-> [k |-> "val", v |-> IF Exh(a) THEN 1 ELSE 0], a |-> a]
-AcceptOp == /\ Ev.ev \in {"next", "next_frames", "is_exhausted"}
+          [] Ev.ev = "clone" -> [ret |-> [k |-> "val", v |-> 0], a |-> a]     \* the clone continues the same stream
+AcceptOp == /\ Ev.ev \in {"next", "next_frames", "is_exhausted", "clone"}
             /\ Ev.r = Step.ret /\ ObsOK(Ev.o, Step.a)
-HeapOK == Ev.h = << 0, 0, 0 >>
+HeapOK == Ev.ev = "clone" \/ Ev.h = << 0, 0, 0 >>     \* cloning the owned ring storage allocates by nature
 
 TReset == /\ Consume /\ Ev.ev = "reset"
           /\ IF AcceptReset THEN /\ a' = AInit(Prefill(Ev.cfg)) /\ cap' = Len(Ev.cfg.data)
